@@ -80,7 +80,12 @@ theorem fromString_eq_reparse (E : ParseEnv) (t t' : Tree) (hw : wf t = true)
 /-- **Round trip.**  For a well-typed tree whose nodes are known to the primitive set (see
 `Registered`), `from_string(str(tree), pset)` succeeds and returns the prefix form of a tree `t'`
 with the same node count and the same arities node by node, which prints identically (through the
-very string builder) and denotes the same value in every environment. -/
+very string builder) and denotes the same value in every environment.
+
+NOTE: `evalTree` reads only the kind, the name and the text of a node, so in the MODEL the last clause ("computes
+the same function") follows from "prints identically with the same shape" and adds no content of its own; the clause
+gets its content from the correspondence run, where the re-parsed tree is compiled by the real code and compared
+value by value. -/
 theorem roundtrip (E : ParseEnv) (refl : ∀ a, E.sub a a = true)
     (trans : ∀ a b c, E.sub a b = true → E.sub b c = true → E.sub a c = true)
     (t : Tree) (σ : Nat) (hwt : wt E.sub σ t = true)
